@@ -126,7 +126,33 @@ def encode_source(text: str, how: str) -> bytes:
     return data
 
 
-def evaluate_project(root: str, support: dict, importers: dict, stt_or_none=None, dirs=(), encodings=None):
+OLD_GRAMMAR_CLASSES = ("Match", "TryStar")  # statement classes that not every supported interpreter has (3.10 / 3.11)
+
+
+def old_grammar_scan(root_path: str) -> tuple:
+    """The scan as an interpreter without match statements / except* runs it (pbt/oldgrammar_child.py): a fresh process in
+    which those classes are removed from the ast module before pytestarch is imported."""
+    import json
+    import os
+    import subprocess
+    import sys
+    from pathlib import Path
+
+    here = Path(__file__).resolve().parents[2]
+    repo = os.environ.get("VERIF_REPO", "/repo")
+    env = dict(os.environ, PYTHONHASHSEED="0", PYTHONPATH=os.pathsep.join([str(Path(repo) / "src"), str(here), str(here / ".deps")]))
+    p = subprocess.run([sys.executable, "-m", "pbt.oldgrammar_child", root_path], capture_output=True, text=True, env=env, cwd=str(here))
+    try:
+        out = json.loads(p.stdout.strip().splitlines()[-1])
+    except Exception:  # noqa: BLE001
+        return ("error", f"child interpreter failed: {p.stderr[-400:]}", None)
+    if "error" in out:
+        return ("error", out["error"], None)
+    nodes, imps, hier = out["ok"]
+    return ("ok", (frozenset(nodes), frozenset(map(tuple, imps)), frozenset(map(tuple, hier))), None)
+
+
+def evaluate_project(root: str, support: dict, importers: dict, stt_or_none=None, dirs=(), encodings=None, old_grammar=False):
     """importers: {relpath: [site...]}. Returns list of per-site results [(relpath, site, violations, nontrivial)], plus file-level."""
     files = dict(support)
     eff_paths = {}
@@ -136,18 +162,22 @@ def evaluate_project(root: str, support: dict, importers: dict, stt_or_none=None
         eff_paths[rel] = effs
     scanned = modules_of(files, dirs, root)
     with Project(root, files, dirs) as pr:
-        res = scan_outcome(pr.path())
+        res = old_grammar_scan(pr.path()) if old_grammar else scan_outcome(pr.path())
     out = []
     if res[0] != "ok":
         for rel, sites in importers.items():
-            out.append((rel, None, [{"sig": "C02/scan-error", "key": {}, "detail": res[1]}], True))
+            out.append((rel, None, [{"sig": "C02/scan-error" + ("/interpreter-without-match-statements" if old_grammar else ""), "key": {}, "detail": res[1]}], True))
         return out
     nodes, imps, hier = res[1]
     ev = res[2]
     # public API cross-check: all dependencies inside the root
     try:
+        if ev is None:
+            raise LookupError
         deps = ev.get_dependencies([ModuleNameFilter(name=root)], [ModuleNameFilter(name=root)])
         api = {(a.identifier, b.identifier) for lst in deps.values() for a, b in lst}
+    except LookupError:
+        api = None
     except Exception as e:  # noqa: BLE001
         api = None
         out.append((None, None, [{"sig": "C02/get_dependencies-error", "key": {}, "detail": f"{type(e).__name__}: {e}"}], True))
@@ -244,8 +274,11 @@ def all_site_templates(max_depth: int, depth3_forms=None):
 
 
 def exh_shard(arg, stt, deadline) -> None:
-    shard, nshards, max_depth = arg
-    templates = [t for i, t in enumerate(all_site_templates(max_depth, THOROUGH_DEPTH3_FORMS)) if i % nshards == shard]
+    shard, nshards, max_depth = arg[:3]
+    old_grammar = len(arg) > 3 and arg[3]
+    templates = [t for t in all_site_templates(max_depth, THOROUGH_DEPTH3_FORMS)
+                 if not (old_grammar and any(s[0] in OLD_GRAMMAR_CLASSES for s in t[0]))]
+    templates = [t for i, t in enumerate(templates) if i % nshards == shard]
     support = support_files(N_PER_FILE)
     files_per_project = 24
     # pack N_PER_FILE sites per file with distinct target indices; alternate plain files and __init__ files
@@ -264,10 +297,10 @@ def exh_shard(arg, stt, deadline) -> None:
                 site = dict(forms[fname], path=[list(s) for s in path], form=fname)
                 sites.append(site)
             importers[rel] = sites
-        for rel, site, viols, nontrivial in evaluate_project("proj", support, importers):
+        for rel, site, viols, nontrivial in evaluate_project("proj", support, importers, old_grammar=old_grammar):
             if site is None:
                 res = {"violations": viols, "nontrivial": False, "labels": ["file-level"]}
-                spec = {"type": "exh-file", "file": rel, "sites": importers.get(rel)}
+                spec = {"type": "exh-file", "file": rel, "sites": importers.get(rel), "old_grammar": old_grammar}
                 if viols:
                     stt.record(spec, res, enumerated=True, sample=False)
                 continue
@@ -275,7 +308,9 @@ def exh_shard(arg, stt, deadline) -> None:
             res = {"violations": viols, "nontrivial": nontrivial,
                    "labels": [f"form={site['form']}", f"depth={depth}", f"field={last_field(site['path'])}",
                               "in-init" if rel.endswith("__init__.py") else "in-file"]}
-            spec = {"type": "site", "init": rel.endswith("__init__.py"), "site": site}
+            spec = {"type": "site", "init": rel.endswith("__init__.py"), "site": site, "old_grammar": old_grammar}
+            if old_grammar:
+                res["labels"].append("interpreter-without-match-statements")
             stt.record(spec, res, enumerated=True, sample=(depth == 2 and site["form"] == "from-submodule" and len(stt.samples) < 4))
 
 
@@ -370,10 +405,10 @@ def check_case(spec: dict) -> dict:
     if spec["type"] == "site":
         site = spec["site"]
         rel = "a/pk0/__init__.py" if spec.get("init") else "a/f0.py"
-        results = evaluate_project("proj", support_files(N_PER_FILE), {rel: [site]})
+        results = evaluate_project("proj", support_files(N_PER_FILE), {rel: [site]}, old_grammar=spec.get("old_grammar", False))
     else:
         if spec["type"] == "exh-file":
-            results = evaluate_project("proj", support_files(N_PER_FILE), {spec["file"]: spec["sites"]})
+            results = evaluate_project("proj", support_files(N_PER_FILE), {spec["file"]: spec["sites"]}, old_grammar=spec.get("old_grammar", False))
         else:
             results = evaluate_project("proj", spec["support"], spec["importers"], dirs=spec.get("dirs", ()), encodings=spec.get("encodings"))
     viols, nontrivial, labels = [], False, []
@@ -400,4 +435,10 @@ def run(ctx) -> None:
     ctx.exhaustive("all-paths-x-forms", MOD, "exh_shard", [(i, nsh, depth) for i in range(nsh)],
                    f"{n_slots} statement-list slots; every nesting path of depth <= {depth} x {len(FORM_NAMES)} import forms"
                    + ("" if quick else f" (depth 3 restricted to forms {sorted(THOROUGH_DEPTH3_FORMS)})"))
+    # the statement classes of match statements and except* do not exist on every supported interpreter (requires-python
+    # >= 3.9): the same paths without those two statements, scanned by a process that does not have the classes
+    ctx.exhaustive("paths-x-forms-on-an-interpreter-without-match-statements", MOD, "exh_shard",
+                   [(i, 2 if quick else 8, 1 if quick else 2, True) for i in range(2 if quick else 8)],
+                   f"every nesting path of depth <= {1 if quick else 2} that does not use match / except* x {len(FORM_NAMES)} import forms, "
+                   "scanned in a child interpreter whose ast module lacks the classes added in Python 3.10-3.12")
     ctx.random("random-projects", MOD, "strategy", "check_case", 4000 if quick else 150000)
